@@ -117,6 +117,7 @@ func (e *Exec) resetPath(dec []int64, no int) {
 		e.opaque["hmacfresh"] = true
 	}
 	e.pc = nil
+	e.traceClass = ""
 	e.randStreams = nil
 	e.pcKind = nil
 	e.decisions = dec
@@ -206,6 +207,7 @@ func exploreCase(prog *ssa.Program, hs *HarnessSpec, cases map[string]int64, bas
 	res := &CaseResult{Harness: hs.Name, Cases: cases, Funcs: map[string]int{}, Intrinsics: map[string]bool{}}
 	stack := [][]int64{{}}
 	no := 0
+	var traced []tracedPath
 	for len(stack) > 0 {
 		dec := stack[len(stack)-1]
 		stack = stack[:len(stack)-1]
@@ -218,6 +220,16 @@ func exploreCase(prog *ssa.Program, hs *HarnessSpec, cases map[string]int64, bas
 		no++
 		res.Paths = append(res.Paths, pr)
 		res.Steps += pr.Steps
+		if e.traceClass != "" && pr.Outcome == "complete" {
+			traced = append(traced, tracedPath{no: pr.No, class: e.traceClass, trace: strings.Join(e.traceEv, " "), pc: append([]*Term{}, e.pc...), want: e.wantTerms(), nondets: append([]*Term{}, e.nondets...)})
+			nv := len(res.Violations)
+			e.traceTwoSafety(hs, cases, traced, len(traced)-1, res, sol)
+			if len(res.Violations) > nv && hs.Opts["stop_on_violation"] != "" {
+				res.Notes = append(res.Notes, "exploration of this instance stopped at the first trace violation")
+				no++
+				break
+			}
+		}
 		for i := len(e.alts) - 1; i >= 0; i-- {
 			stack = append(stack, e.alts[i])
 		}
@@ -418,4 +430,60 @@ func sortedKeys(m map[string]bool) []string {
 	}
 	sort.Strings(out)
 	return out
+}
+
+type tracedPath struct {
+	no      int
+	class   string
+	trace   string
+	pc      []*Term
+	want    []*Term
+	nondets []*Term
+}
+
+// traceTwoSafety: two runs of the same class (e.g. "rejected code of the right length") that
+// agree on everything but the attacker-controlled variables must have the same control-flow
+// trace.  For every pair of paths with different traces the solver is asked for shared inputs
+// with two different attacker values; sat = the trace depends on the attacker data.
+func (e *Exec) traceTwoSafety(hs *HarnessSpec, cases map[string]int64, traced []tracedPath, last int, res *CaseResult, sol *Portfolio) {
+	prefix := hs.Opts["attacker"]
+	if prefix == "" {
+		prefix = "code"
+	}
+	pred := func(n string) bool { return strings.HasPrefix(n, prefix) }
+	for i := 0; i < last; i++ {
+		for j := last; j <= last; j++ {
+			a, b := traced[i], traced[j]
+			if a.class != b.class || a.trace == b.trace {
+				continue
+			}
+			ob := &Obligation{Name: "control-flow-trace-independent-of-" + prefix, Path: a.no}
+			res.Obligations = append(res.Obligations, ob)
+			memo := map[int]*Term{}
+			as := append([]*Term{}, a.pc...)
+			for _, p := range b.pc {
+				as = append(as, e.tb.Rename(p, pred, "'", memo))
+			}
+			r := sol.Prove(e.tb, as, a.want, e.cfg.ProveTimeout)
+			ob.Backend = r.Backend
+			switch r.Status {
+			case "unsat":
+				ob.Status = "proved"
+				res.Proved++
+			case "sat":
+				ob.Status = "violated"
+				m := map[string]uint64{}
+				for _, t := range a.nondets {
+					if v, ok := r.Model[t.ref()]; ok {
+						m[t.name] = v
+					}
+				}
+				res.Violations = append(res.Violations, &Violation{Harness: hs.Name, Cases: cases, Name: ob.Name, Path: a.no, Model: m,
+					Detail: fmt.Sprintf("paths %d and %d (class %s) are both feasible for the same secret/parameters with different %s; traces differ: [%s] vs [%s]", a.no, b.no, a.class, prefix, firstN(a.trace, 300), firstN(b.trace, 300))})
+			default:
+				ob.Status = "unknown"
+				res.Unknown = append(res.Unknown, fmt.Sprintf("%s (paths %d,%d): %s", ob.Name, a.no, b.no, r.Note))
+			}
+		}
+	}
 }
